@@ -48,7 +48,7 @@ var suites = []oprf.Suite{oprf.SuiteRistretto255, oprf.SuiteP256, oprf.SuiteP384
 var zkGroups = []group.Group{group.Ristretto255, group.P256, group.P384, group.P521}
 
 var oprfFaults = []string{"", "", "eval-replace", "eval-flip", "eval-swap", "proof-c", "proof-s", "pk-other", "info-alter", "blinded-alter", "eval-identity", "server-forge-identity", "server-forge-replace", "server-reproof-honest", "proof-missing"}
-var dleqFaults = []string{"", "proof-c", "proof-s", "proof-flip", "stmt-a", "stmt-ka", "stmt-b", "stmt-kb", "dst", "batch-swap", "batch-alter", "zero-c", "zero-s", "false-statement", "identity-statement", "prove-b-identity", "prove-kb-other", "prove-kb-identity"}
+var dleqFaults = []string{"", "proof-c", "proof-s", "proof-flip", "stmt-a", "stmt-ka", "stmt-b", "stmt-kb", "dst", "batch-swap", "batch-alter", "batch-short", "batch-long", "zero-c", "zero-s", "false-statement", "identity-statement", "prove-b-identity", "prove-kb-other", "prove-kb-identity"}
 var dlFaults = []string{"", "V-alter", "R-alter", "kG-alter", "G-alter", "userid", "otherinfo", "V-identity-R-zero", "false-statement"}
 var qnFaults = []string{"", "forge-hx-zero", "forge-gx-zero", "forge-h-zero", "Z-alter", "C-alter", "g-alter", "gx-alter", "h-alter", "hx-alter", "N-alter", "degenerate-secparam0", "zero-Z", "false-statement"}
 
@@ -636,6 +636,12 @@ func execDLEQ(p *Plan, run *core.Run) {
 		} else {
 			kbi[n-1] = otherElement(g, kbi[n-1], p.Pos)
 		}
+	case "batch-short":
+		// the evaluated list reaches the verifier one element short (or long): not the statement
+		// that was proved, refused without a crash
+		kbi = kbi[:n-1]
+	case "batch-long":
+		kbi = append(kbi, g.Generator())
 	case "false-statement":
 		// honest-looking proof for kb != k*b assembled with zero challenge and response
 		kbi[0] = otherElement(g, kbi[0], 1)
